@@ -205,6 +205,9 @@ class Assembly:
                 is_sig = s.startswith('//@sig ')
                 mm = re.match(r'//@(?:fn|sig)\s+(\w+)\s*::\s*(.*)$', s)
                 src = self.src(mm.group(1)); path = mm.group(2).strip()
+                alias = None
+                ma = re.match(r'^(.*?)\s+as\s+([A-Za-z0-9_:<>\']+)$', path)
+                if ma: path, alias = ma.group(1).strip(), ma.group(2)
                 it = src.path(path)
                 if it.kind != 'fn' or it.body_open is None:
                     raise AsmError('%s is not a fn with body' % path)
@@ -229,9 +232,11 @@ class Assembly:
                 if i >= n: raise AsmError('missing //@end for ' + path)
                 i += 1
                 uname = path.split(' :: ')[-1].replace('fn ', '')
-                owner = [p for p in path.split(' :: ') if p.startswith('impl ')]
+                owner = [p for p in path.split(' :: ') if p.startswith('impl')]
                 if owner:
                     uname = re.sub(r"^impl\s*(<[^>]*>\s*)?", '', owner[-1]) + '::' + uname
+                uname = re.sub(r"<[^>]*>", '', uname)
+                if alias: uname = alias
                 sig = src.text[it.sig:it.body_open].rstrip()
                 sig = self.apply_rewrites(sig)
                 vis = [x for x in sections if x[0] == 'vis']
